@@ -14,6 +14,12 @@ CLAIMED = {
     'C12': ('exploration', 'emitted-artifact invariant monitor (bytecode verifier by abstract interpretation over all static paths) plus dynamic stack/block-depth conformance at every executed instruction via hook H2',
             'Every code object compiled from the corpus (all repository .py files, seeded structurally rich generated programs, block stressors) is verified on all static paths against the VM semantics, and every executed instruction is compared with the predicted depth set; held = on those code objects and executions.',
             'The verifier is a model of vm/eval.go written by hand; the dynamic monitor cross-validates it. Corpus-bounded.', '6/C12'),
+    'C11': ('exploration', 'boundary observation of (code, err) of py.Compile in isolated worker processes under recover() and a watchdog; accepted code is passed to the bytecode verifier',
+            'Exhaustive short fragment sequences, seeded random sequences with invalid UTF-8, mutations of real programs and size stress are compiled in all three modes; every outcome must be a code object or a SyntaxError-family exception with filename/lineno/offset - never a panic, abort, reproduced hang or internal error type.',
+            'Watchdog-based bounded progress instead of termination; input space bounded by the enumerations.', '6/C11'),
+    'C18': ('exploration', 'self-reference monitor: canonical deep dump of every compiled code object compared with the first dump of the same input across repeats, interleavings, worker processes, concurrent goroutines (race detector) and two Go toolchains',
+            'Every source of the corpus is compiled >=12 times (64+ in thorough) in three processes interleaved with other compilations and concurrently from 16 goroutines under -race while contexts run; all dumps of one input must be byte-identical.',
+            'Only map orders that the runtime actually produced are covered.', '6/C18'),
 }
 
 PENDING_REASON = 'check not built yet in this round (the design in DESIGN.md applies; nothing is claimed until the monitor exists and is silent on the unchanged tree)'
